@@ -768,7 +768,10 @@ func (client *Client) input() {
 			err = io.ErrUnexpectedEOF
 		}
 	}
-	for _, call := range client.pending {
+	for seq, call := range client.pending {
+		// whoever removes a call from pending signals it, and nobody else:
+		// Close, a cancelled context or a write error must not complete it a second time
+		delete(client.pending, seq)
 		call.Error = err
 		call.done()
 	}
